@@ -72,6 +72,15 @@ def run(ctx):
             ctx.violation("hx_framing %s aborted rc=%d: %s" % (cmd, rc, err[-1500:]), replay_src=None,
                           replay_text="hx_framing %s (seed %d) aborted:\n%s" % (cmd, s, err))
     for cmd, out, rc, err in outs:
+        if rc != 0:
+            # drop the line the abort cut short, judge what was recorded before it
+            with open(out, "rb") as f:
+                data = f.read()
+            data = data[:data.rfind(b"\n") + 1]
+            with open(out, "wb") as f:
+                f.write(data)
+            if not data:
+                continue
         n = nontrivial_scan(ctx, out)
         ctx.evaluations += n
         with open(out) as f:
